@@ -89,7 +89,7 @@ def make_wb(f_group_rel: bool, f_extra: bool, f_trans: bool, f_params: bool, f_r
 def c16_roundtrip(f_group_rel: bool, f_extra: bool, f_trans: bool, f_params: bool, f_repeat: bool, f_settings: bool, f_override: bool, xcol: int, c0: int) -> bool:
     """
     vpre: 0 <= xcol <= 2
-    vpre: 33 <= c0 <= 126 and c0 != 36
+    vpre: 97 <= c0 <= 122
     vpost: _ == True
     """
     T = [S(c0, 65 + i) for i in range(12)]
@@ -116,12 +116,13 @@ specialise(
     "C16",
     "b.survey-json",
     c16_roundtrip,
-    {"f_group_rel": [False, True], "f_extra": [False, True]},
+    {"f_group_rel": [False, True], "f_extra": [False, True], "f_trans": [False, True], "f_override": [False, True]},
+    reach_if=lambda fx: not fx["f_trans"] and not fx["f_override"],
     timeout=500,
     kernel=K,
     shims=("S1", "S2", "S3", "S4"),
     symbolic="presence of translations, parameters, a repeat with relevant, a settings sheet, rows overriding question-type defaults (5 symbolic booleans), name of the extra choices column (symbolic index over xa/parent/extra_data); all 12 cell texts share one symbolic tracer character",
-    bounds="form: group(select_one with hint) + text with default/custom bind/constraint message (+ repeat); group relevant and extra choice column presence fixed per instance",
+    bounds="form: group(select_one with hint) + text with default/custom bind/constraint message (+ repeat); group relevant, extra choice column, translations and type-default overrides fixed per instance",
     weight=150,
 )
 
@@ -129,7 +130,7 @@ specialise(
 
 def c16_search_reload(after_xml: bool, c0: int) -> bool:
     """
-    vpre: 33 <= c0 <= 126 and c0 != 36
+    vpre: 97 <= c0 <= 122
     vpost: _ == True
     """
     wb = {
